@@ -190,7 +190,9 @@ def gen_case(r, n):
         c["shape"] = r.choice(["list", "str", "none", "no-handshake-key", "no-object-key", "empty-dict", "int", "nested-class-dict"])
     elif k < 0.84:
         c["first"] = "type"
-        c["msgtype"] = r.choice([0, 2, 3, 4, 4, 4, 5, 6, 6, 7, 255])
+        c["msgtype"] = r.choice([0, 2, 2, 3, 4, 4, 4, 5, 6, 6, 7, 255])
+        c["tflags"] = r.choice([0, 0, 0, wire.F_ONEWAY, wire.F_ONEWAY, wire.F_BATCH, wire.F_EXC, wire.F_ONEWAY | wire.F_BATCH, wire.F_KEEPSER, 0x8000])
+        c["empty"] = r.random() < 0.3
     elif k < 0.92:
         c["first"] = "malformed"
         c["how"] = r.choice(["magic", "version", "tag", "truncated-header", "truncated-body", "oversize", "garbage", "annlen", "datalen-short", "empty"])
@@ -223,7 +225,9 @@ def first_bytes(P, c, r):
             payload = ser.dumpsCall("marker", "mark", (c["token"] + "-first",), {}) if t == 4 else b"ping"
         else:
             payload = good
-        return wire.encode(t, 0, 0, ser.serializer_id, payload)
+        if c.get("empty"):
+            payload = b""
+        return wire.encode(t, c.get("tflags", 0), 0, ser.serializer_id, payload)
     if f == "malformed":
         base = wire.encode(wire.CONNECT, 0, 0, ser.serializer_id, good)
         how = c["how"]
@@ -452,7 +456,7 @@ def classify_accept(c):
 
 
 def describe(c):
-    return "{%s}" % ", ".join("%s=%r" % (k, c[k]) for k in ("first", "mode", "objid", "shape", "msgtype", "how", "ser") if k in c)
+    return "{%s}" % ", ".join("%s=%r" % (k, c[k]) for k in ("first", "mode", "objid", "shape", "msgtype", "tflags", "empty", "how", "ser") if k in c)
 
 
 def describe_reply(P, m):
